@@ -20,7 +20,7 @@ from .c01 import FUNCS
 
 OPS = ['run', 'get_run_func', 'get_jacobian_func', 'get_nodes', 'get_edges', 'get_edge', 'collect_edges',
        'collect_edges_delay', 'get_node_template', 'getitem', 'to_yaml', 'deepcopy', 'update_template',
-       'op_update_template', 'update_var_on_copy']
+       'op_update_template', 'update_var_on_copy', 'run_noclear', 'get_run_func_noclear', 'get_jacobian_func_noclear']
 
 
 def first_state(spec):
@@ -40,6 +40,15 @@ def do_op(ct, spec, name, vectorize):
         if name == 'run':
             ct.run(simulation_time=0.5, step_size=0.25, outputs={'o': first_state(spec)}, in_place=False, verbose=False,
                    vectorize=vectorize, float_precision='float64')
+        elif name == 'run_noclear':
+            ct.run(simulation_time=0.75, step_size=0.25, outputs={'o': first_state(spec)}, in_place=False, verbose=False,
+                   vectorize=vectorize, float_precision='float64', clear=False)
+        elif name == 'get_run_func_noclear':
+            ct.get_run_func('f_op2', step_size=0.25, in_place=False, verbose=False, vectorize=vectorize, clear=False,
+                            float_precision='float64', file_name='op_run2')
+        elif name == 'get_jacobian_func_noclear':
+            ct.get_jacobian_func('j_op2', step_size=0.25, in_place=False, verbose=False, vectorize=False, clear=False,
+                                 float_precision='float64', file_name='op_jac2')
         elif name == 'get_run_func':
             ct.get_run_func('f_op', step_size=0.25, in_place=False, verbose=False, vectorize=vectorize, clear=True,
                             float_precision='float64', file_name='op_run')
@@ -138,6 +147,7 @@ def run(tier='quick', seed=0, only=None, verbose=False):
     base += families.fam_hierarchy()[1:2] + families.fam_hierarchy()[5:6]
     base += families.fam_edge_templates()[2:3]
     base += families.fam_mixed_nodes(seed, n=2)[:1]
+    base += families.fam_edge_inputs()[3:5]      # sub-circuit edges with a string-valued (node variable) attribute
     jobs = []
     for key, spec in base:
         seqs = [(o,) for o in OPS]
@@ -145,7 +155,7 @@ def run(tier='quick', seed=0, only=None, verbose=False):
             seqs += [p for p in itertools.permutations(OPS, 2)]
         else:
             seqs += [('collect_edges', 'to_yaml'), ('to_yaml', 'run'), ('get_run_func', 'collect_edges_delay'),
-                     ('run', 'run')]
+                     ('run', 'run'), ('run_noclear', 'run_noclear'), ('get_edges', 'collect_edges')]
         for seq in seqs:
             for vec in ((True, False) if len(seq) == 1 else (True,)):
                 jobs.append(dict(key=f"{key}|ops={'+'.join(seq)}|vec={vec}", spec=spec, ops=seq, vectorize=vec))
